@@ -285,6 +285,9 @@ def check_main(prop, tier, verif_seed, repo, workers, runs=None, budget=None, st
         if r.violation is None or r.violation[0] != cls:
             small = case
             r = mod.run_case(copy.deepcopy(small), keep_log=True)
+        if r.violation is None or r.violation[0] != cls:
+            harness_errors.append(f"violation {cls} of seed {v['seed']} reproduced once but not again in the same process (state leaks between runs?)")
+            continue
         path = os.path.join(OUT_DIR, "replays", f"{prop}-{v['seed']}.json")
         rep = {
             "property": prop,
